@@ -37,6 +37,8 @@ var Shapes = map[string]ShapeInfo{
 	// c3r re-commits an internal variable that an earlier commitment already holds (the builder
 	// must commit to that commitment instead) after another commitment wire precedes it
 	"c3r": {"c3r", 2, 2, 3, []bool{true, true}},
+	// c4b: four commitments where later ones refer back to earlier commitments out of order
+	"c4b": {"c4b", 2, 2, 4, []bool{true, true}},
 	// pub2 has no secret input at all: X0*X0 == X1
 	"pub2": {"pub2", 2, 0, 0, []bool{true, true}},
 }
@@ -51,7 +53,7 @@ func init() {
 }
 
 func ShapeNames() []string {
-	return []string{"p1", "p2u", "c1s", "c1p", "c1po", "c2", "c2i", "c3", "c3r"}
+	return []string{"p1", "p2u", "c1s", "c1p", "c1po", "c2", "c2i", "c3", "c3r", "c4b"}
 }
 
 func NewShape(kind string) *ShapeCircuit {
@@ -163,6 +165,21 @@ func (c *ShapeCircuit) Define(api frontend.API) error {
 		}
 		t := api.Mul(c1, c2)
 		if _, err := commit(t, c.X[0]); err != nil {
+			return err
+		}
+	case "c4b":
+		c0, err := commit(c.Y[0])
+		if err != nil {
+			return err
+		}
+		c1, err := commit(c.Y[1])
+		if err != nil {
+			return err
+		}
+		if _, err := commit(c.X[1], c1); err != nil {
+			return err
+		}
+		if _, err := commit(api.Mul(c.Y[0], c.Y[1]), c0); err != nil {
 			return err
 		}
 	case "c3r":
